@@ -146,6 +146,7 @@ cert_validate = Spec(
     params=dict(cert_type='int', principal='opt[str]'),
     classes={'SSHOpenSSHCertificate': CERT_FIELDS},
     stubs={'time.time': clock_stub},
+    modifies=[],            # a pure lookup/decision: frame-checked on every exit path
     ensures=[('returns-only-if-type-window-principal-ok', validate_cond)],
     raises={'ValueError': lambda c: z3.Not(validate_cond(c))},
     always=[('clock-read-at-most-once', lambda c: z3.BoolVal(len(c.events('clock')) <= 1))])
@@ -223,6 +224,7 @@ validate_openssh = Spec(
     classes=CLASSES,
     stubs={'self._owner.validate_host_ca_key': owner_cb(cb_ca, 'owner_ca'),
            'cert.validate': contract_stub(lambda: cert_validate)},
+    modifies=[],            # a pure lookup/decision: frame-checked on every exit path
     ensures=[('certified-key-only-under-the-CA-rule', lambda c: z3.And(c.result == cf(c, 'key'), openssh_cond(c)))],
     raises={'ValueError': lambda c: z3.Or(z3.Not(openssh_cond(c)), z3.Not(c.truthy(c.oldv('_owner'), c.old_state)))},
     always=[('trust-sets-unchanged', trust_frame)],
@@ -287,6 +289,7 @@ validate_host_key = Spec(
            'self._validate_x509_host_certificate_chain': x509_stub,
            'self._validate_openssh_host_certificate': contract_stub(lambda: validate_openssh),
            'self._owner.validate_host_public_key': owner_cb(cb_key, 'owner_key')},
+    modifies=[],            # a pure lookup/decision: frame-checked on every exit path
     ensures=[('returned-key-is-trusted-and-not-revoked', lambda c: decision(c, *vhk_args(c), r=c.result))],
     raises={'ValueError': lambda c: z3.Or(z3.Not(decision(c, *vhk_args(c))),
                                           z3.Not(c.truthy(c.oldv('_owner'), c.old_state)))},
@@ -610,6 +613,7 @@ kh_match = Spec(
     params=dict(host='str', addr='str', port='opt[int]'),
     classes={'SSHKnownHosts': KH_FIELDS},
     stubs={'ip_address': ip_stub, 'entry.matches': pat_matches_stub},
+    modifies=[],            # a pure lookup/decision: frame-checked on every exit path
     loops={'g1': _g1,
            1: LoopSpec(header='for (marker, key, cert, subject) in matches', invariant=kh_loop_inv,
                        lemmas=kh_loop_lemmas)},
@@ -682,6 +686,7 @@ kh_match_public = Spec(
     params=dict(host='str', addr='str', port='opt[int]'),
     classes={'SSHKnownHosts': KH_FIELDS},
     stubs={'self._match': contract_stub(lambda: kh_match)},
+    modifies=[],            # a pure lookup/decision: frame-checked on every exit path
     ensures=[('port-lookup-with-fallback-to-portless', kh_match_fallback_post),
              ('fallback-keeps-portless-revocations-invents-none', kh_fallback_revocations),
              ('port-specific-revocations-survive-fallback', kh_revocations_survive)],
